@@ -8,7 +8,8 @@ _c = implcheck.ImplCheck(
     ID, 'streett',
     ['GenProofs/FixpointProofs.v', 'GenProofs/StreettProofs.v',
      'GenProofs/InitProofs.v', 'GenProofs/TransducerModel.v',
-     'GenProofs/StreettTProofs.v', 'Properties/C02.v'],
+     'GenProofs/StreettTProofs.v', 'GenProofs/StreettWins.v',
+     'GenProofs/MooreIndepSolver.v', 'Properties/C02.v'],
     'hand-written model GenProofs/TransducerModel.v of '
     'make_streett_transducer (tie H: full truth tables of action[impl] and '
     'init[impl] compared on every run), built on the translated '
